@@ -183,6 +183,32 @@ def getopt_cases(tier):
     return cases
 
 
+def inner_flag_cases(tier):
+    """Round 2: the inner command's own arguments are tokens the wrapper itself understands (`timeout 5 rm -k x`,
+    `command rm -v x`, `env zap x -u`): run under real bash like every other case - the tools stop parsing their
+    options at the command name, so the inner command runs with these arguments."""
+    cases = []
+    for tool in TOOLS:
+        t = TOOLS[tool]
+        flags = []
+        for o in t["opts"]:
+            if o.short:
+                flags.append("-" + o.short)
+        flags += ["--" + o.long for o in t["opts"] if o.long][:3] + ["--", "-v", "-V", "-p", "-h"]
+        if tool == "xargs":
+            flags = [f for f in flags if f not in ("-I", "-i", "--replace")]
+        seen = set()
+        for f in flags:
+            if f in seen:
+                continue
+            seen.add(f)
+            for shape, iw in (("1st", ["rm", f, "x"]), ("2nd", ["zap", "x", f])):
+                words = [tool] + t["pre"][0] + iw
+                cases.append(Case(q(words), words, tool, f"{tool} | no option | inner arg {shape} = {f}", " ".join(iw),
+                                  validate=tool not in ("builtin", "strace", "command")))
+    return cases
+
+
 RAW_TEXTS = [
     # (site, shell text): sh -c strings written as several quoted segments / with escapes
     ("sh -c | several quoted segments", "sh -c 'ls '\"; rm x; \"'echo'"),
